@@ -20,7 +20,9 @@ pub fn file_role(path: &str) -> String {
     let name = rel.rsplit('/').next().unwrap_or(rel);
     let in_braille = rel.starts_with("Braille/");
     let in_lang = rel.starts_with("Languages/");
-    if rel == "prefs.yaml" {
+    if path.starts_with(CONFIG_DIR) && name == "prefs.yaml" {
+        "user-prefs".into()
+    } else if rel == "prefs.yaml" {
         "prefs".into()
     } else if rel == "definitions.yaml" || rel == "Braille/definitions.yaml" {
         "root-definitions".into()
@@ -411,7 +413,18 @@ pub fn reachable_files(ctx: &Arc<ExecCtx>, cfg: &Config) -> Result<Vec<String>, 
     Ok(files.into_iter().collect())
 }
 
+pub const VALID_USER_PREFS: &str = "---\n  Speech:\n    Verbosity: Verbose\n  Navigation:\n    NavVerbosity: Terse\n  Braille:\n    BrailleNavHighlight: All\n  Other:\n    DecimalSeparator: \"Auto\"\n";
+
 pub fn case_trace(case: &Case) -> Trace {
+    let mut t = case_trace_inner(case);
+    if case.file == crate::world::user_prefs_path().to_string_lossy() {
+        // the user's own prefs.yaml exists (valid) before anything else happens; the fault is derived from it
+        t.sessions[0].insert(0, Step::Env(EnvEvent::WriteUserPrefs { content: VALID_USER_PREFS.into() }));
+    }
+    t
+}
+
+fn case_trace_inner(case: &Case) -> Trace {
     let mut t = Trace::new("C14", "C14");
     t.origin = format!("enumeration {:?}", case);
     let cfg = &case.config;
@@ -556,6 +569,21 @@ pub fn enumerate(ctx: &Arc<ExecCtx>, n_configs: usize, all_params: bool) -> Resu
                     }
                 }
             }
+            // the user's own preference file (<config dir>/MathCAT/prefs.yaml): only a repair in place makes sense
+            if ci == 0 && mode == RepairMode::R1CheckAll {
+                let up = crate::world::user_prefs_path().to_string_lossy().to_string();
+                for kind in &kinds {
+                    let applicable = match kind {
+                        FaultKind::Deleted => true,
+                        k => faults::mutate(k, VALID_USER_PREFS.as_bytes(), &up).is_some(),
+                    };
+                    if applicable {
+                        for phase in [Phase::Cold, Phase::Warm] {
+                            cases.push(Case { config: cfg.clone(), other: None, file: up.clone(), kind: kind.clone(), phase, mode: mode.clone() });
+                        }
+                    }
+                }
+            }
             // directory faults: language dir, region dir, SharedRules, braille code dir, Intent, the rules dir itself
             let mut dirs: BTreeSet<String> = BTreeSet::new();
             for f in files {
@@ -679,7 +707,7 @@ pub fn random_trace(seed: u64, ctx: &Arc<ExecCtx>, reachable: &BTreeMap<String, 
                     step,
                     sub: rng.range(4, 10),
                     nth: rng.range(1, 6),
-                    kind: rng.pick(&[InjectKind::ReadEio, InjectKind::ReadEacces, InjectKind::ReadNotFound]).clone(),
+                    kind: rng.pick(&[InjectKind::ReadEio, InjectKind::ReadEacces, InjectKind::ReadNotFound, InjectKind::MtimeUnavailable]).clone(),
                     sticky: rng.chance(0.5),
                 });
                 round += 1;
